@@ -249,3 +249,163 @@ def instances_for(draw, s, n=3, fallback=None):
         else:
             out.append(draw(fb))
     return out
+
+
+# ---- deterministic, schema-directed probe sets (no randomness: a pure function of the schema) -----
+
+FIXED_PROBES = [None, True, False, 0, 1, 1.0, -1, 2.5, "", "a", "ab", "abc", [], [1], [1, 1], [1, "a", None, 2],
+                {}, {"a": 1}, {"a": 1, "b": "x"}, {"zz": None}]
+
+
+def _num_near(b):
+    out = [b]
+    if isinstance(b, bool):
+        return []
+    if isinstance(b, int):
+        out += [b - 1, b + 1]
+        if abs(b) < 2 ** 53:
+            out.append(float(b))
+        out += [2 * b, 3 * b]
+    elif isinstance(b, float) and math.isfinite(b):
+        out += [math.nextafter(b, math.inf), math.nextafter(b, -math.inf)]
+        if b == int(b) and abs(b) < 1e300:
+            out += [int(b), int(b) + 1, int(b) - 1]
+        if abs(b) < 1e150:
+            out += [2 * b, 3 * b]
+    return out
+
+
+def probes(s, limit=40, depth=0):
+    """Deterministic list of instances engaging schema s (a pure function of s)."""
+    if not isinstance(s, dict) or depth > 2:
+        return list(FIXED_PROBES[:6 if depth else len(FIXED_PROBES)])
+    h = hints(s)
+    out = []
+    for v in h["vals"][:6]:
+        out.append(_fresh(v))
+        if isinstance(v, bool):
+            out.append(int(v))
+        elif isinstance(v, int) and abs(v) < 2 ** 53:
+            out.append(float(v))
+            if v in (0, 1):
+                out.append(bool(v))
+        elif isinstance(v, list):
+            out.append([_fresh(e) for e in reversed(v)])
+            out.append(_fresh(v) + [None])
+        elif isinstance(v, dict):
+            out.append(dict((k, _fresh(v[k])) for k in reversed(list(v))))
+    for b in _uniq(h["nums"])[:4]:
+        out.extend(_num_near(b))
+    nums = _uniq(h["nums"])
+    if len(nums) >= 2:
+        a, b = nums[0], nums[1]
+        try:
+            out.append(a * b)
+            out.append(a + b)
+        except OverflowError:
+            pass
+    lens = sorted(set(l + dlt for l in h["lens"] for dlt in (-1, 0, 1) if 0 <= l + dlt < 7))
+    if any(k in s for k in ("minLength", "maxLength", "pattern")):
+        for l in lens or [0, 1, 2]:
+            out.append("a" * l)
+            out.append(("ab" * l)[:l])
+        out += ["b", "ba", "cab", "\U0001F600", "aa"]
+    # objects
+    keys = _uniq(h["keys"])[:6]
+    objk = ("properties", "required", "additionalProperties", "patternProperties", "dependencies",
+            "minProperties", "maxProperties", "propertyNames")
+    if keys or any(k in s for k in objk):
+        keys = keys or ["a", "b"]
+        cand = {}
+        for k in keys + ["zz"]:
+            sub = _sub_for_key(s, k)
+            cand[k] = probes(sub, 4, depth + 1)[:4] if isinstance(sub, dict) and sub else [1, "a", None]
+        full = dict((k, _fresh(cand[k][0])) for k in keys)
+        out.append(full)
+        for k in keys:
+            out.append({k: _fresh(cand[k][0])})
+            for v in cand[k][1:]:
+                o = _fresh(full)
+                o[k] = _fresh(v)
+                out.append(o)
+            o = _fresh(full)
+            del o[k]
+            out.append(o)
+        o = _fresh(full)
+        o["zz"] = _fresh(cand["zz"][0])
+        out.append(o)
+        o = _fresh(full)
+        o["zz"] = _fresh(cand["zz"][-1])
+        out.append(o)
+        for n in lens:
+            out.append(dict((k, 1) for k in (keys + ["y1", "y2", "y3", "y4", "y5", "y6"])[:n]))
+    # arrays
+    arrk = ("items", "additionalItems", "minItems", "maxItems", "uniqueItems", "contains")
+    if any(k in s for k in arrk):
+        it = s.get("items")
+        n_it = len(it) if isinstance(it, list) else 0
+
+        def sub_at(i):
+            if isinstance(it, list):
+                return it[i] if i < len(it) else s.get("additionalItems")
+            if isinstance(it, dict):
+                return it
+            return s.get("contains")
+        for n in sorted(set(lens + [0, 1, 2, n_it, n_it + 1, n_it + 2])):
+            if n > 6:
+                continue
+            cands = []
+            for i in range(n):
+                sub = sub_at(i)
+                cands.append(probes(sub, 3, depth + 1)[:3] if isinstance(sub, dict) and sub else [1, "a", None])
+            base = [_fresh(c[0]) for c in cands]
+            out.append(base)
+            for i in range(n):
+                for v in cands[i][1:]:
+                    a = _fresh(base)
+                    a[i] = _fresh(v)
+                    out.append(a)
+            if n >= 1:
+                out.append([_fresh(cands[i][min(i, len(cands[i]) - 1)]) for i in range(n)])
+        out.append([1, 1.0])
+        out.append([[1], [True]])
+        out.append([{"a": 1}, {"a": 1}])
+    for kw in ("allOf", "anyOf", "oneOf", "extends", "not", "if", "then", "else", "type", "disallow"):
+        v = s.get(kw)
+        for e in (v if isinstance(v, list) else [v]):
+            if isinstance(e, dict) and e:
+                out.extend(probes(e, 6, depth + 1)[:6])
+    dep = s.get("dependencies")
+    if isinstance(dep, dict):
+        for k, e in dep.items():
+            if isinstance(e, dict) and e:
+                for p in probes(e, 4, depth + 1)[:4]:
+                    if isinstance(p, dict):
+                        q = _fresh(p)
+                        q.setdefault(k, 1)
+                        out.append(q)
+    out = [x for x in _uniq_typed(out) if _finite(x)]
+    fixed = [f for f in FIXED_PROBES]
+    res = out[:limit] + fixed[:max(6, limit - len(out))]
+    return _uniq_typed(res)[:limit + 6]
+
+
+def _uniq_typed(seq):
+    out = []
+    seen = set()
+    for x in seq:
+        r = repr(x)
+        if r not in seen:
+            seen.add(r)
+            out.append(x)
+    return out
+
+
+def _finite(v):
+    if isinstance(v, float):
+        return math.isfinite(v)
+    if isinstance(v, list):
+        return all(_finite(e) for e in v)
+    if isinstance(v, dict):
+        return all(_finite(e) for e in v.values())
+    return True
